@@ -123,3 +123,35 @@ func VerifH_C13_carry() {
 	vCover("C13.carry.grows", err == nil && len(strm.previousHeaderBytes) == p+n && p+n > 20)
 	vCover("C13.carry.refused", err != nil && p+n > 128)
 }
+
+// The header-list limit counts the whole request: a request whose header
+// block carries a field x-a of 0..40 bytes and whose trailers carry a field
+// x-b of 0..40 bytes, with MaxHeaderListSize 200 (the three pseudo-headers
+// take 125 of it), reaches the handler only when everything together is
+// within the limit.
+//
+//verif:harness prop=C13 unwind=200 timeout=600
+func VerifH_C13_hdrlist() {
+	s := vStartServer(8)
+	s.sc.maxHeaderList = 200
+	la, lb := vRange(0, 4)*10, vRange(0, 4)*10
+	field := func(name byte, n int) []byte {
+		b := []byte{0x00, 0x03, 'x', '-', name, byte(n)}
+		for i := 0; i < n; i++ {
+			b = append(b, 'v')
+		}
+		return b
+	}
+	total := 42 + 44 + 39 + (35 + la) + (35 + lb)
+	s.send(vFrame(0x1, 0x4, 1, append(vBlock(true, '1'), field('a', la)...)))
+	s.send(vFrame(0x0, 0x0, 1, []byte("d")))
+	s.send(vFrame(0x1, 0x5, 1, field('b', lb)))
+	s.replies()
+	if len(s.handled) > 0 {
+		vAssert(total <= 200, "C13.hdrlist.handler-never-sees-more-than-max-header-list-size")
+	}
+	if total <= 200 {
+		vAssert(len(s.handled) == 1, "C13.hdrlist.within-limit-is-served")
+	}
+	vCover("C13.hdrlist.over-by-trailers", total > 200 && 125+35+la <= 200)
+}
